@@ -1,0 +1,120 @@
+//go:build verif
+
+package cache
+
+import (
+	"os"
+	"time"
+)
+
+// Accessors for the model-based verification harness (build tag "verif" only).
+
+type VerifEntry struct {
+	Size       int64
+	Expires    time.Time
+	LastAccess time.Time
+	Object     any
+}
+
+type VerifCache interface {
+	VerifCleanupCycle()
+	VerifByteSize() int64
+	VerifLen() int
+	VerifLimit() int64
+	VerifSnapshot() map[string]VerifEntry
+	VerifSetLastAccess(key CacheKey, t time.Time)
+	VerifSetExpires(key CacheKey, t time.Time)
+	VerifDir() map[string]int64
+	VerifJanitorInterval() time.Duration
+}
+
+func (j *cacheJanitor[MetadataT]) verifCycle() {
+	j.cleanExpiredEntries()
+	j.ensureCacheSize()
+}
+
+// ---- memory backend
+
+func (c *MemoryCache[MetadataT]) VerifCleanupCycle()   { c.janitor.verifCycle() }
+func (c *MemoryCache[MetadataT]) VerifByteSize() int64 { return c.byteSize.Get() }
+func (c *MemoryCache[MetadataT]) VerifLimit() int64    { return c.maxCacheSize.Get() }
+func (c *MemoryCache[MetadataT]) VerifLen() int {
+	c.mu.RLock()
+	defer c.mu.RUnlock()
+	return len(c.entries)
+}
+func (c *MemoryCache[MetadataT]) VerifSnapshot() map[string]VerifEntry {
+	c.mu.RLock()
+	defer c.mu.RUnlock()
+	out := make(map[string]VerifEntry, len(c.entries))
+	for k, e := range c.entries {
+		out[k.Hex] = VerifEntry{Size: e.meta.Size, Expires: e.meta.Expires, LastAccess: e.meta.LastAccess, Object: e.meta.Object}
+	}
+	return out
+}
+func (c *MemoryCache[MetadataT]) VerifSetLastAccess(key CacheKey, t time.Time) {
+	c.mu.RLock()
+	defer c.mu.RUnlock()
+	if e, ok := c.entries[key]; ok {
+		e.meta.LastAccess = t
+	}
+}
+func (c *MemoryCache[MetadataT]) VerifSetExpires(key CacheKey, t time.Time) {
+	c.mu.RLock()
+	defer c.mu.RUnlock()
+	if e, ok := c.entries[key]; ok {
+		e.meta.Expires = t
+	}
+}
+func (c *MemoryCache[MetadataT]) VerifDir() map[string]int64          { return nil }
+func (c *MemoryCache[MetadataT]) VerifJanitorInterval() time.Duration { return c.janitor.interval }
+
+// ---- file backend
+
+func (c *FileCache[MetadataT]) VerifCleanupCycle()   { c.janitor.verifCycle() }
+func (c *FileCache[MetadataT]) VerifByteSize() int64 { return c.byteSize.Get() }
+func (c *FileCache[MetadataT]) VerifLimit() int64    { return c.maxCacheSize.Get() }
+func (c *FileCache[MetadataT]) VerifLen() int {
+	c.mu.RLock()
+	defer c.mu.RUnlock()
+	return len(c.entriesMetadata)
+}
+func (c *FileCache[MetadataT]) VerifSnapshot() map[string]VerifEntry {
+	c.mu.RLock()
+	defer c.mu.RUnlock()
+	out := make(map[string]VerifEntry, len(c.entriesMetadata))
+	for k, m := range c.entriesMetadata {
+		out[k.Hex] = VerifEntry{Size: m.Size, Expires: m.Expires, LastAccess: m.LastAccess, Object: m.Object}
+	}
+	return out
+}
+func (c *FileCache[MetadataT]) VerifSetLastAccess(key CacheKey, t time.Time) {
+	c.mu.RLock()
+	defer c.mu.RUnlock()
+	if m, ok := c.entriesMetadata[key]; ok {
+		m.LastAccess = t
+	}
+}
+func (c *FileCache[MetadataT]) VerifSetExpires(key CacheKey, t time.Time) {
+	c.mu.RLock()
+	defer c.mu.RUnlock()
+	if m, ok := c.entriesMetadata[key]; ok {
+		m.Expires = t
+	}
+}
+
+// VerifDir lists the cache directory: file name -> length.
+func (c *FileCache[MetadataT]) VerifDir() map[string]int64 {
+	out := map[string]int64{}
+	ents, err := os.ReadDir(c.rootDir.Path)
+	if err != nil {
+		return out
+	}
+	for _, e := range ents {
+		if info, err := e.Info(); err == nil {
+			out[e.Name()] = info.Size()
+		}
+	}
+	return out
+}
+func (c *FileCache[MetadataT]) VerifJanitorInterval() time.Duration { return c.janitor.interval }
